@@ -1,10 +1,14 @@
-//! Parent side of the evaluation worker: feeds DIR/req.txt to a child `rkh eval-worker`
-//! process with a per-request wall-clock budget; a child that dies (abort, stack overflow) or
+//! Parent side of the evaluation worker: feeds DIR/req.txt to child `rkh eval-worker`
+//! processes with a per-request wall-clock budget; a child that dies (abort, stack overflow) or
 //! exceeds the budget is replaced and the request is answered `abort` / `timeout`.
+//!
+//! The request file is cut into chunks at `reset` lines (a session never spans two chunks);
+//! chunks are processed in parallel, answers are written in request order.
 use crate::util::Opts;
 use std::io::{BufRead, BufReader, Write};
 use std::process::{Child, Command, Stdio};
 use std::sync::mpsc::{channel, Receiver};
+use std::sync::{Arc, Mutex};
 use std::time::Duration;
 
 struct Worker {
@@ -12,10 +16,10 @@ struct Worker {
     rx: Receiver<String>,
 }
 
-fn spawn() -> Worker {
+fn spawn(sub: &str) -> Worker {
     let exe = std::env::current_exe().unwrap();
     let mut child = Command::new(exe)
-        .arg("eval-worker")
+        .arg(sub)
         .env("RUST_BACKTRACE", "0")
         .stdin(Stdio::piped())
         .stdout(Stdio::piped())
@@ -26,37 +30,117 @@ fn spawn() -> Worker {
     let (tx, rx) = channel();
     std::thread::spawn(move || {
         for l in BufReader::new(out).lines() {
-            match l { Ok(l) => { if tx.send(l).is_err() { break; } } Err(_) => break }
+            match l {
+                Ok(l) => {
+                    if tx.send(l).is_err() {
+                        break;
+                    }
+                }
+                Err(_) => break,
+            }
         }
     });
     Worker { child, rx }
 }
 
-pub fn run(o: &Opts) -> i32 {
-    let req = std::fs::read_to_string(format!("{}/req.txt", o.out)).expect("req.txt");
-    let mut imp = o.writer("impl.txt");
-    let budget = Duration::from_millis(o.extra.iter().find_map(|x| x.strip_prefix("--budget-ms=").and_then(|v| v.parse().ok())).unwrap_or(5000));
-    let mut w = spawn();
-    let mut restarts = 0u64;
-    for line in req.lines() {
-        let ok = writeln!(w.child.stdin.as_mut().unwrap(), "{}", line).and_then(|_| w.child.stdin.as_mut().unwrap().flush()).is_ok();
+fn run_chunk(sub: &str, lines: &[String], budget: Duration, restarts: &Mutex<u64>) -> Vec<String> {
+    let mut w = spawn(sub);
+    let mut out = Vec::with_capacity(lines.len());
+    // session prefix since the last `reset`, replayed (answers discarded) after a restart so
+    // that `ans` is what it would have been — minus the request that killed the worker
+    let mut session: Vec<&String> = vec![];
+    for line in lines {
+        if line.starts_with("reset") {
+            session.clear();
+        }
+        let ok = writeln!(w.child.stdin.as_mut().unwrap(), "{}", line)
+            .and_then(|_| w.child.stdin.as_mut().unwrap().flush())
+            .is_ok();
         let ans = if !ok { None } else { w.rx.recv_timeout(budget).ok() };
         match ans {
-            Some(a) => writeln!(imp, "{}", a).unwrap(),
+            Some(a) => {
+                out.push(a);
+                session.push(line);
+            }
             None => {
-                // dead or too slow
                 let dead = matches!(w.child.try_wait(), Ok(Some(_)));
                 let _ = w.child.kill();
                 let _ = w.child.wait();
-                writeln!(imp, "{}", if dead { "abort" } else { "timeout" }).unwrap();
-                restarts += 1;
-                w = spawn();
+                out.push(if dead { "abort".to_string() } else { "timeout".to_string() });
+                *restarts.lock().unwrap() += 1;
+                w = spawn(sub);
+                for l in &session {
+                    let _ = writeln!(w.child.stdin.as_mut().unwrap(), "{}", l);
+                    let _ = w.child.stdin.as_mut().unwrap().flush();
+                    let _ = w.rx.recv_timeout(budget);
+                }
             }
         }
     }
     let _ = w.child.kill();
     let _ = w.child.wait();
+    out
+}
+
+pub fn run_with(o: &Opts, sub: &'static str) -> i32 {
+    let req: Vec<String> = std::fs::read_to_string(format!("{}/req.txt", o.out))
+        .expect("req.txt")
+        .lines()
+        .map(|s| s.to_string())
+        .collect();
+    let budget = Duration::from_millis(
+        o.extra.iter().find_map(|x| x.strip_prefix("--budget-ms=").and_then(|v| v.parse().ok())).unwrap_or(3000),
+    );
+    let independent = o.extra.iter().any(|x| x == "--independent");
+    let jobs: usize = o.extra.iter().find_map(|x| x.strip_prefix("--jobs=").and_then(|v| v.parse().ok())).unwrap_or(16);
+    let target = (req.len() / (jobs * 4).max(1)).max(200);
+    let mut chunks: Vec<(usize, usize)> = vec![];
+    let mut start = 0;
+    for i in 0..req.len() {
+        let boundary = independent || req[i].starts_with("reset");
+        if boundary && i - start >= target {
+            chunks.push((start, i));
+            start = i;
+        }
+    }
+    chunks.push((start, req.len()));
+    let req = Arc::new(req);
+    let chunks = Arc::new(chunks);
+    let next = Arc::new(Mutex::new(0usize));
+    let results: Arc<Mutex<Vec<Option<Vec<String>>>>> = Arc::new(Mutex::new(vec![None; chunks.len()]));
+    let restarts = Arc::new(Mutex::new(0u64));
+    let mut hs = vec![];
+    for _ in 0..jobs.min(chunks.len()).max(1) {
+        let (req, chunks, next, results, restarts) = (req.clone(), chunks.clone(), next.clone(), results.clone(), restarts.clone());
+        hs.push(std::thread::spawn(move || loop {
+            let k = {
+                let mut n = next.lock().unwrap();
+                let k = *n;
+                *n += 1;
+                k
+            };
+            if k >= chunks.len() {
+                break;
+            }
+            let (a, b) = chunks[k];
+            let r = run_chunk(sub, &req[a..b], budget, &restarts);
+            results.lock().unwrap()[k] = Some(r);
+        }));
+    }
+    for h in hs {
+        h.join().unwrap();
+    }
+    let mut imp = o.writer("impl.txt");
+    for r in results.lock().unwrap().iter() {
+        for l in r.as_ref().unwrap() {
+            writeln!(imp, "{}", l).unwrap();
+        }
+    }
     imp.flush().unwrap();
-    eprintln!("worker restarts: {}", restarts);
+    eprintln!("worker restarts: {}", restarts.lock().unwrap());
     0
+}
+
+pub fn run(o: &Opts) -> i32 {
+    run_with(o, "eval-worker")
 }
